@@ -1,6 +1,7 @@
 import TunnoxModel.Driver.Util
 import TunnoxModel.Spec.C19
 import TunnoxModel.Model.C19Fault
+import TunnoxModel.Model.C19Reg
 /-!
   Line protocol for C19 (see harness/c19/main.go for the case / observation grammar).
   The current tree corresponds to the `.repaired` variant of `DeleteMapping`.
@@ -142,7 +143,93 @@ def runFaultModel (fc : FaultCase) : String :=
   let o := modelFault fc.i fc.uni fc.cl fc.sub fc.base fc.th fc.tp fc.k
   " ".intercalate (finalToks o.before ++ ["|", resStr o.res, "|"] ++ finalToks o.after)
 
+/-! ### registry cases
+  `c19q bases k … ops n <op>…`            sequential history on the real DomainRegistry (model compared by equality)
+  `c19r bases k … cl n <ext>… hold h round j`   n simultaneous Register calls (only `holdsReg` is evaluated)
+  ops: `r:<ext>` Register, `x:<domhex>` Unregister, `l:<hosthex>` LookupByHost -/
+
+def parseROp (tok : String) : Option ROp :=
+  if tok.startsWith "r:" then (parseExt (tok.drop 2).toString).map .register
+  else match fields tok with
+    | ["x", d] => (strOfHex d).map .unregister
+    | ["l", h] => (strOfHex h).map .lookup
+    | _ => none
+
+def rresStr : RRes → String
+  | .ok => "ok"
+  | .err c => "e:" ++ c
+  | .found id cl => s!"f:{hexOfStr id}:{cl}"
+  | .notFound => "nf"
+
+def parseRRes (tok : String) : Option RRes :=
+  if tok == "ok" then some .ok
+  else if tok == "nf" then some .notFound
+  else match fields tok with
+    | ["e", c] => some (.err c)
+    | ["f", id, cl] => do pure (.found (← strOfHex id) (← cl.toNat?))
+    | _ => none
+
+def parseRegSeq (ts : List String) : Option RInput :=
+  match ts with
+  | "c19q" :: "bases" :: ts => do
+    let (bases, ts) ← takeCounted ts
+    let bases ← bases.mapM strOfHex
+    match ts with
+    | "ops" :: ts => do
+      let (ops, rest) ← takeCounted ts
+      if !rest.isEmpty then none else
+      let ops ← ops.mapM parseROp
+      pure ⟨⟨false, bases⟩, [ops], []⟩
+    | _ => none
+  | _ => none
+
+def runRegSeqModel (i : RInput) : String :=
+  " ".intercalate ((modelReg i).filterMap (fun s => s.ret.map (fun p => rresStr p.2)))
+
+/-- sequential observation: one result token per operation, in order -/
+def regSeqSlots (ops : List ROp) (toks : List String) : Option (List RSlot) :=
+  if ops.length != toks.length then none
+  else (ops.zip toks).mapM (fun p => (parseRRes p.2).map (fun r => (⟨0, true, some p.1, some (p.1, r)⟩ : RSlot)))
+
+structure RaceCase where
+  pms : List PM
+
+def parseRace (ts : List String) : Option RaceCase :=
+  match ts with
+  | "c19r" :: "bases" :: ts => do
+    let (_, ts) ← takeCounted ts
+    match ts with
+    | "cl" :: ts => do
+      let (cls, _) ← takeCounted ts
+      let pms ← cls.mapM parseExt
+      pure ⟨pms⟩
+    | _ => none
+  | _ => none
+
+/-- race observation: `<tid>=<res>` in order of return, then `L=<res>` (LookupByHost of the first claimant's name) -/
+def raceSlots (rc : RaceCase) (toks : List String) : Option (List RSlot) := do
+  let n := rc.pms.length
+  let invs : List RSlot := (List.range n).filterMap (fun t => (rc.pms[t]?).map (fun pm => ⟨t, true, some (.register pm), none⟩))
+  let rets ← toks.mapM (fun tok =>
+    match tok.splitOn "=" with
+    | ["L", r] => do
+      let pm ← rc.pms.head?
+      let res ← parseRRes r
+      pure (⟨n, true, some (.lookup pm.fullDomain), some (.lookup pm.fullDomain, res)⟩ : RSlot)
+    | [t, r] => do
+      let t ← t.toNat?
+      let pm ← rc.pms[t]?
+      let res ← parseRRes r
+      pure (⟨t, true, none, some (.register pm, res)⟩ : RSlot)
+    | _ => none)
+  if rets.length != n + 1 then none else pure (invs ++ rets)
+
 def runModel (ts : List String) : String :=
+  if ts.head? == some "c19q" then
+    match parseRegSeq ts with
+    | some i => runRegSeqModel i
+    | none => "bad-case"
+  else
   if ts.head? == some "c19f" then
     match parseFaultCase ts with
     | some fc => runFaultModel fc
@@ -244,6 +331,22 @@ def parseFaultObs (toks : List String) : Option FaultObs :=
   | _ => none
 
 def runHolds (caseToks obsToks : List String) : String :=
+  if caseToks.head? == some "c19q" then
+    match parseRegSeq caseToks with
+    | some i =>
+      match regSeqSlots (i.threads.headD []) obsToks with
+      | some sl => boolStr (holdsReg sl)
+      | none => "false"
+    | none => "false"
+  else
+  if caseToks.head? == some "c19r" then
+    match parseRace caseToks with
+    | some rc =>
+      match raceSlots rc obsToks with
+      | some sl => boolStr (holdsReg sl)
+      | none => "false"
+    | none => "false"
+  else
   if caseToks.head? == some "c19f" then
     match parseFaultObs obsToks with
     | some o => boolStr (holdsFault o)
